@@ -125,6 +125,8 @@ struct Probe {
     /// step in which its background ticker ran
     starts: Rc<Cell<u32>>,
     last_tick_by_inc: Rc<std::cell::RefCell<Vec<u64>>>,
+    /// last step in which the software's `tokio::spawn` (runtime-level, not LocalSet) task ran
+    last_spawned_tick_step: std::sync::Arc<std::sync::atomic::AtomicU64>,
 }
 
 fn program(i: usize, sw: Sw, p: Probe, log: Log<String>) -> impl std::future::Future<Output = turmoil::Result> + 'static {
@@ -139,6 +141,14 @@ fn program(i: usize, sw: Sw, p: Probe, log: Log<String>) -> impl std::future::Fu
                 p2.ticks.set(p2.ticks.get() + 1);
                 p2.last_tick_step.set(rec::step());
                 p2.last_tick_by_inc.borrow_mut()[inc] = rec::step();
+            }
+        });
+        // a task on the runtime itself (not on the software's LocalSet)
+        let st = p.last_spawned_tick_step.clone();
+        tokio::spawn(async move {
+            loop {
+                tokio::time::sleep(Duration::from_millis(1)).await;
+                st.store(rec::step(), std::sync::atomic::Ordering::Relaxed);
             }
         });
         let fs = p.finish_step.clone();
@@ -474,6 +484,18 @@ fn scenario(s: Scn) -> ScenarioOut {
             let fs = p.finish_step.get();
             if fs > 0 && s.sw[i].kind == Kind::Ok && ex.final_step > fs && !s.bounce_between.contains(&i) {
                 out.count("finished_software_observed_for_later_steps", 1);
+                let spawned = p.last_spawned_tick_step.load(std::sync::atomic::Ordering::Relaxed);
+                if spawned > 0 {
+                    out.count("runtime_level_tasks_of_finished_software_observed", 1);
+                }
+                if spawned > fs {
+                    out.violate(
+                        "finished-software-polled",
+                        format!("C11|finished-software-polled|{mode}|client={}|tokio-spawn", s.sw[i].is_client),
+                        format!("software n{i} returned in step {fs} but the task it had started with tokio::spawn still ran in step {spawned}"),
+                        desc.clone(),
+                    );
+                }
                 if p.last_tick_step.get() > fs {
                     out.violate(
                         "finished-software-polled",
@@ -504,6 +526,15 @@ fn scenario(s: Scn) -> ScenarioOut {
         for (i, after) in &ex.crashed_after {
             if ex.final_step > *after {
                 out.count("crashed_software_observed_for_later_steps", 1);
+                let spawned = ex.probes[*i].last_spawned_tick_step.load(std::sync::atomic::Ordering::Relaxed);
+                if spawned > *after && !s.bounce_between.contains(i) {
+                    out.violate(
+                        "crashed-software-polled",
+                        format!("C11|crashed-software-polled|{mode}|tokio-spawn"),
+                        format!("host n{i} crashed after step {after} but the task it had started with tokio::spawn still ran in step {spawned}"),
+                        desc.clone(),
+                    );
+                }
                 if ex.probes[*i].last_tick_step.get() > *after {
                     out.violate(
                         "crashed-software-polled",
@@ -596,6 +627,6 @@ fn fin() -> Finish<'static> {
             "a finish exactly on a step boundary may be attributed to either adjacent step".into(),
         ],
         min_distinct: 100,
-        required_counters: vec!["panics_surfaced", "software_errors_surfaced", "duration_errors", "run_ok", "finished_software_observed_for_later_steps", "crashed_software_observed_for_later_steps", "zero_client_scenarios", "panics_surfaced_after_bounce", "bounced_software_observed_for_later_steps"],
+        required_counters: vec!["panics_surfaced", "software_errors_surfaced", "duration_errors", "run_ok", "finished_software_observed_for_later_steps", "crashed_software_observed_for_later_steps", "zero_client_scenarios", "panics_surfaced_after_bounce", "bounced_software_observed_for_later_steps", "runtime_level_tasks_of_finished_software_observed"],
     }
 }
